@@ -438,6 +438,9 @@ m('redo-newpage-no-relink', ['C01', 'C20'], LR, """					prevPage.SetNextPageID(p
 m('writepage-keeps-nextpageid', ['C01', 'C10'], DM, """		d.nextPageID = pageID + 1
 """, """		_ = pageID
 """, ['C01-R9 [DiskManagerImpl.WritePage:advances-nextPageID]'])
+m('reply-channel-unbuffered', ['C12'], 'lib/samehada/request_manager.go', """	retCh := make(chan *reqResult, 1)
+""", """	retCh := make(chan *reqResult)
+""", ['C12-R6 [(*samehada.RequestManager).AppendRequest:callerCh-origin#1]'])
 # drop the one that needs a helper that does not exist
 M = [x for x in M if x['id'] != 'insert-executor-unlocks-early']
 os.chdir(os.path.dirname(os.path.abspath(__file__)) + '/..')
